@@ -435,6 +435,12 @@ def precomputed_table_check():
 
 def check_property(pid, tier="quick", seed=0):
     t0 = time.time()
+    # replay files describe the run that wrote them: the ones an earlier run of this property left behind are removed first, so
+    # that evidence/replay only ever holds violations of the tree that was checked last
+    rdir = os.path.join(VERIF, "evidence", "replay")
+    for f in (os.listdir(rdir) if os.path.isdir(rdir) else []):
+        if f.startswith(pid + "-") and f.endswith(".json"):
+            os.remove(os.path.join(rdir, f))
     units, fnspecs = VS.load_all(os.path.join(VERIF, "contracts"))
     unames = units_for_property(pid, units)
     if not unames:
